@@ -4,6 +4,8 @@ decides short counts and faults from the op's I/O plan (DESIGN §4.6)."""
 from __future__ import annotations
 
 import builtins
+
+_REAL_OPEN = builtins.open
 import codecs
 import errno
 import io
@@ -11,6 +13,7 @@ import os
 import random
 import sys
 
+_REAL_CODECS_OPEN = codecs.open
 PREFIX = "/simfs/"
 
 PLATFORMS = {
@@ -133,6 +136,10 @@ class SimRaw(io.RawIOBase):
     def readable(self):
         return self._r
 
+    def fileno(self):
+        # a fake descriptor: os.fsync() on it is routed to the simulated device (see Patched)
+        return 1_000_000 + (sum(self.path.encode()) % 100_000)
+
     def writable(self):
         return self._w
 
@@ -243,7 +250,7 @@ class SimFS:
     # -- open()
     def open(self, file, mode="r", buffering=-1, encoding=None, errors=None, newline=None, closefd=True, opener=None):
         if not self.is_sim(file):
-            return builtins.open(file, mode, buffering, encoding, errors, newline, closefd, opener)
+            return _REAL_OPEN(file, mode, buffering, encoding, errors, newline, closefd, opener)
         path = os.fspath(file)
         binary = "b" in mode
         m = mode.replace("b", "").replace("t", "")
@@ -297,7 +304,7 @@ class SimFS:
     # -- codecs.open()
     def codecs_open(self, filename, mode="r", encoding=None, errors="strict", buffering=-1):
         if not self.is_sim(filename):
-            return codecs.open(filename, mode, encoding, errors, buffering)
+            return _REAL_CODECS_OPEN(filename, mode, encoding, errors, buffering)
         if encoding is not None and "b" not in mode:
             mode = mode + "b"
         f = self.open(filename, mode, buffering)
@@ -321,22 +328,84 @@ SEAM_MODULES = {
 
 
 class Patched:
-    """Context manager: route the five modules' `open` / `codecs_open` globals to a SimFS."""
+    """Context manager: route file access of the library to a SimFS.
+
+    The five modules' `open` / `codecs_open` globals are the seams the code has today; builtins.open, io.open,
+    codecs.open and the handful of os functions an atomic-write or pathlib refactor would use (replace, rename,
+    remove, unlink, stat, fsync, path.exists/isfile/getsize) are routed too, so that a behaviour-preserving
+    refactor of the file handling does not make a check raise a false alarm.  Paths outside /simfs/ pass through."""
 
     def __init__(self, fs: SimFS):
         self.fs = fs
         self.saved = []
 
+    def _set(self, obj, name, val):
+        had = name in getattr(obj, "__dict__", {}) or hasattr(obj, name)
+        self.saved.append((obj, name, had, getattr(obj, name, None)))
+        setattr(obj, name, val)
+
     def __enter__(self):
         import importlib
+        import io as _io
+        import os as _os
+        import stat as _stat
 
+        fs = self.fs
         for mod, names in SEAM_MODULES.items():
             importlib.import_module(mod.rsplit(".", 1)[0])
             m = sys.modules[mod]
             for n in names:
                 had = n in m.__dict__
                 self.saved.append((m, n, had, m.__dict__.get(n)))
-                setattr(m, n, self.fs.open if n == "open" else self.fs.codecs_open)
+                setattr(m, n, fs.open if n == "open" else fs.codecs_open)
+        real = dict(replace=_os.replace, rename=_os.rename, remove=_os.remove, unlink=_os.unlink, stat=_os.stat, fsync=_os.fsync,
+                    exists=_os.path.exists, isfile=_os.path.isfile, getsize=_os.path.getsize)
+
+        def p(x):
+            return _os.fspath(x)
+
+        def move(src, dst, *a, **k):
+            if fs.is_sim(src) or fs.is_sim(dst):
+                if p(src) not in fs.files:
+                    raise FileNotFoundError(errno.ENOENT, "No such file or directory", p(src))
+                fs.files[p(dst)] = fs.files.pop(p(src))
+                (fs.tainted.add if p(src) in fs.tainted else fs.tainted.discard)(p(dst))
+                fs.tainted.discard(p(src))
+                return None
+            return real["replace"](src, dst, *a, **k)
+
+        def remove(path, *a, **k):
+            if fs.is_sim(path):
+                if p(path) not in fs.files:
+                    raise FileNotFoundError(errno.ENOENT, "No such file or directory", p(path))
+                del fs.files[p(path)]
+                return None
+            return real["remove"](path, *a, **k)
+
+        def stat(path, *a, **k):
+            if not isinstance(path, int) and fs.is_sim(path):
+                if p(path) not in fs.files:
+                    raise FileNotFoundError(errno.ENOENT, "No such file or directory", p(path))
+                return _os.stat_result((_stat.S_IFREG | 0o644, 0, 0, 1, 0, 0, len(fs.files[p(path)]), 0, 0, 0))
+            return real["stat"](path, *a, **k)
+
+        def fsync(fd):
+            if isinstance(fd, int) and fd >= 1_000_000:
+                return None
+            return real["fsync"](fd)
+
+        self._set(builtins, "open", fs.open)
+        self._set(_io, "open", fs.open)
+        self._set(codecs, "open", fs.codecs_open)
+        self._set(_os, "replace", move)
+        self._set(_os, "rename", move)
+        self._set(_os, "remove", remove)
+        self._set(_os, "unlink", remove)
+        self._set(_os, "stat", stat)
+        self._set(_os, "fsync", fsync)
+        self._set(_os.path, "exists", lambda x: (p(x) in fs.files) if fs.is_sim(x) else real["exists"](x))
+        self._set(_os.path, "isfile", lambda x: (p(x) in fs.files) if fs.is_sim(x) else real["isfile"](x))
+        self._set(_os.path, "getsize", lambda x: len(fs.files[p(x)]) if fs.is_sim(x) and p(x) in fs.files else real["getsize"](x))
         return self.fs
 
     def __exit__(self, *exc):
